@@ -16,7 +16,13 @@ def run(ctx):
     tools = build.build("tools")
     W.tlc_writer_model(ctx, ctx.quick())
     items = W.tlc_behaviours(ctx, 200 if ctx.quick() else 4000, depth=10)
-    rnd = [it for it in W.random_items(ctx, 120 if ctx.quick() else 2000) if it.get("klass") in ("unordered", "cutprobe", "emptykey", "plain")]
+    rnd = [it for it in W.random_items(ctx, 120 if ctx.quick() else 2000, pools=True) if it.get("klass") in ("unordered", "cutprobe", "emptykey", "plain", "capacity")]
+    # the capacity class (blocks ending within a few bytes of 64 / 128 KiB) with refused adds in between: an add that is refused must
+    # leave the block - and the buffers it is built in - as they were
+    for it in rnd:
+        if it.get("klass") == "capacity" and len(it["adds"]) == 2:
+            a, bb = it["adds"]
+            it["adds"] = [a, (a[0], a[1]), (b"", "G1x1"), bb, (bb[0], "G2x0"), (b"a\xff", "G3x0")]
     items += rnd + W.preexisting_items(ctx, 10 if ctx.quick() else 40)
     ncut = sum(1 for it in items for e in it.get("exp", []) if e[1])
     ctx.cov["model_adds_at_block_cut"] = ncut
